@@ -84,12 +84,27 @@ def construct(d, rng, depth, ctx):
                     'accentverb', 'newline', 'opformula', 'umacro0', 'gls',
                     'mathunk', 'specialrun', 'defmac', 'optmac', 'hash',
                     'texorpdf', 'nonumber', 'textinmath', 'xspace', 'cites',
-                    'twofoot', 'mlarg', 'mlarg'])
+                    'twofoot', 'mlarg', 'mlarg', 'ctlglue', 'phrase'])
     d.kind(k)
     if k == 'textbf':
         d.add('\\textbf{')
         sentence(d, rng, depth - 1, ctx)
         d.add('}')
+    elif k == 'phrase':
+        # a phrase that a replacement list of the option matrix rewrites
+        # (longer and shorter replacement)
+        d.add(rng.choice(['so dass', 'zum Beispiel', 'so  dass']))
+        d.add(' ')
+        d.word(rng)
+    elif k == 'ctlglue':
+        # a control word directly followed by a letter outside ASCII: the
+        # name ends there, the letter is text (CJK, Cyrillic, accented text)
+        m = rng.choice(['\\LaTeX', '\\TeX', '\\ss', '\\dots', '\\unka'])
+        if m == '\\unka':
+            d.unk.append((m, False))
+        d.add(m)
+        d.add(rng.choice(['я', 'é', '排', 'ü']))
+        d.word(rng)
     elif k == 'unknown':
         nm = '\\unk' + rng.choice('abc')
         d.unk.append((nm, False))
@@ -463,6 +478,9 @@ def gen_doc(rng, depth=2, blocks=None, lang=False, preamble=True, files=None,
             gls=False):
     d = Doc()
     d.files = dict(files or {})
+    if rng.random() < 0.07:
+        # a skip region at the very beginning of the text
+        d.add('%%% LT-SKIP-BEGIN\nsecret \\foo\n%%% LT-SKIP-END\n')
     if preamble:
         d.add(PREAMBLE)
     if lang:
